@@ -1,3 +1,1132 @@
-"""placeholder until the recipe interpreter exists"""
+"""Recipe programs: generation (online, against eager state), execution through the Recipe API, eager
+replay through the direct operations, prefix-bake ledger, and the history-level checkers for
+C08 (bake = eager), C09 (get_substance_used), C15 (flows / remaining), C17 (trash link),
+C19 (step instructions) and the recipe part of C07.
+
+The state after step k is what bake() returns for the prefix made of the first k steps (declaring only
+the objects that prefix uses): no hook, and no trust in RecipeStep.frm/to, which the queries under test
+read themselves."""
+from __future__ import annotations
+
+import math
+
+import numpy
+
+from . import refmodel as R
+from . import fingerprint as F
+from . import handlers as H1
+from .monitors import M, MonitorBug, InjectedFault
+from .gen import (make_substances, liquids, spell, rand_selector, sel_json, rect_selector)
+
+K = R.K
+
+
+def PP():
+    import pyplate.pyplate as pp
+    return pp
+
+
+# ==================================================================================================
+# declarations and objects
+
+def build_decls(rng, subs, n_containers=None, n_plates=None):
+    decls = []
+    liqs = liquids(subs)
+    for i in range(n_containers if n_containers is not None else rng.randint(1, 4)):
+        chosen = rng.sample(subs, rng.randint(1, min(3, len(subs))))
+        if not any(s.is_liquid() for s in chosen):
+            chosen.append(rng.choice(liqs))
+        init = []
+        for s in chosen:
+            if s.is_enzyme():
+                init.append((s, f'{rng.randint(1, 500) / 10} U'))
+            elif s.is_liquid():
+                init.append((s, f'{rng.randint(5, 100)} mL'))
+            else:
+                init.append((s, f'{rng.randint(1, 40) * 50} mg'))
+        cap = rng.choice([None, None, f'{rng.randint(400, 900)} mL'])
+        decls.append({'type': 'container', 'name': f'c{i}', 'max': cap, 'init': init})
+    if rng.random() < 0.5:
+        decls.append({'type': 'container', 'name': 'e0', 'max': rng.choice([None, '500 mL']), 'init': []})
+    for i in range(n_plates if n_plates is not None else rng.randint(1, 3)):
+        rows, cols = rng.randint(1, 3), rng.randint(1, 4)
+        decls.append({'type': 'plate', 'name': f'p{i}', 'max': f'{rng.choice([100, 200, 500])} uL', 'rows': rows, 'cols': cols})
+    return decls
+
+
+def make_objs(decls):
+    pp = PP()
+    out = {}
+    with M.oracle():
+        for d in decls:
+            if d['type'] == 'container':
+                if d['max']:
+                    out[d['name']] = pp.Container(d['name'], d['max'], d['init'] or None)
+                else:
+                    out[d['name']] = pp.Container(d['name'], initial_contents=d['init'] or None)
+            else:
+                out[d['name']] = pp.Plate(d['name'], d['max'], rows=d['rows'], columns=d['cols'])
+    return out
+
+
+def ref_of(objs, r):
+    name, sel = r
+    o = objs[name]
+    if sel is None:
+        return o
+    return o[sel]
+
+
+def is_plate(o):
+    return isinstance(o, PP().Plate)
+
+
+# ==================================================================================================
+# eager semantics: the same operations through the direct container / plate operations
+
+def apply_eager(cur, step, kf05=False):
+    pp = PP()
+    cur = dict(cur)
+    op = step['op']
+    if op == 'transfer':
+        a, b, q = step['src'], step['dst'], step['q']
+        src, dst = ref_of(cur, a), ref_of(cur, b)
+        if isinstance(cur[b[0]], pp.Container):
+            s2, d2 = pp.Container.transfer(src, dst, q)
+        else:
+            s2, d2 = pp.Plate.transfer(src, dst, q)
+        if a[0] == b[0]:
+            cur[a[0]] = d2
+        else:
+            cur[a[0]] = s2
+            cur[b[0]] = d2
+    elif op == 'remove':
+        t = step['dst']
+        cur[t[0]] = ref_of(cur, t).remove(step['what'])
+    elif op == 'fill_to':
+        t = step['dst']
+        if kf05 and t[1] is not None:
+            cur[t[0]] = cur[t[0]].fill_to(step['solvent'], step['q'])
+        cur[t[0]] = ref_of(cur, t).fill_to(step['solvent'], step['q'])
+    elif op == 'create_container':
+        if step['max']:
+            cur[step['name']] = pp.Container(step['name'], step['max'], step['init'] or None)
+        else:
+            cur[step['name']] = pp.Container(step['name'], initial_contents=step['init'] or None)
+    elif op == 'dilute':
+        cur[step['dst']] = cur[step['dst']].dilute(step['solute'], step['conc'], step['solvent'], step.get('new_name'))
+    elif op == 'solution':
+        solv = step['solvent']
+        if isinstance(solv, str):       # name of a container
+            cur[solv], cur[step['name']] = pp.Container.create_solution(step['solutes'], cur[solv], step['name'], **step['kw'])
+        else:
+            cur[step['name']] = pp.Container.create_solution(step['solutes'], solv, step['name'], **step['kw'])
+    elif op == 'solution_from':
+        cur[step['src']], cur[step['name']] = pp.Container.create_solution_from(
+            cur[step['src']], step['solute'], step['conc'], step['solvent'], step['q'], step['name'])
+    elif op in ('start_stage', 'end_stage'):
+        pass
+    else:
+        raise KeyError(op)
+    return cur
+
+
+def touched(step):
+    """Names used by a step, from the program."""
+    op = step['op']
+    if op == 'transfer':
+        return [step['src'][0], step['dst'][0]]
+    if op in ('remove', 'fill_to'):
+        return [step['dst'][0]]
+    if op == 'dilute':
+        return [step['dst']]
+    if op == 'create_container':
+        return [step['name']]
+    if op == 'solution':
+        return [step['name']] + ([step['solvent']] if isinstance(step['solvent'], str) else [])
+    if op == 'solution_from':
+        return [step['src'], step['name']]
+    return []
+
+
+def creates(step):
+    return step['name'] if step['op'] in ('create_container', 'solution', 'solution_from') else None
+
+
+def real_steps(steps):
+    return [s for s in steps if s['op'] not in ('start_stage', 'end_stage')]
+
+
+def stage_ranges(steps):
+    """stage name -> (a, b) over the indices of real steps; from the program, open stage closed at the end."""
+    rng_ = {}
+    idx = 0
+    opened = {}
+    for s in steps:
+        if s['op'] == 'start_stage':
+            opened[s['name']] = idx
+        elif s['op'] == 'end_stage':
+            rng_[s['name']] = (opened.pop(s['name']), idx)
+        else:
+            idx += 1
+    for k, v in opened.items():
+        rng_[k] = (v, idx)
+    rng_['all'] = (0, idx)
+    return rng_
+
+
+# ==================================================================================================
+# Recipe API
+
+def to_recipe(decls, steps, only_names=None):
+    """Build a Recipe for `steps` declaring the objects it uses.  -> (recipe, handles)"""
+    pp = PP()
+    objs = make_objs(decls)
+    r = pp.Recipe()
+    used = set()
+    for s in steps:
+        used.update(touched(s))
+    created = {creates(s) for s in steps if creates(s)}
+    declared = [n for n in objs if n in used and n not in created]
+    if declared:
+        r.uses(*[objs[n] for n in declared])
+    handles = {n: objs[n] for n in declared}
+    for s in steps:
+        add_step(r, handles, s)
+    return r, handles
+
+
+def add_step(r, handles, s):
+    op = s['op']
+    if op == 'start_stage':
+        r.start_stage(s['name'])
+    elif op == 'end_stage':
+        r.end_stage(s['name'])
+    elif op == 'transfer':
+        r.transfer(ref_of(handles, s['src']), ref_of(handles, s['dst']), s['q'])
+    elif op == 'remove':
+        r.remove(ref_of(handles, s['dst']), s['what'])
+    elif op == 'fill_to':
+        r.fill_to(ref_of(handles, s['dst']), s['solvent'], s['q'])
+    elif op == 'create_container':
+        if s['max']:
+            handles[s['name']] = r.create_container(s['name'], s['max'], s['init'] or None)
+        else:
+            handles[s['name']] = r.create_container(s['name'], initial_contents=s['init'] or None)
+    elif op == 'dilute':
+        r.dilute(handles[s['dst']], s['solute'], s['conc'], s['solvent'], s.get('new_name'))
+    elif op == 'solution':
+        solv = s['solvent']
+        handles[s['name']] = r.create_solution(s['solutes'], handles[solv] if isinstance(solv, str) else solv,
+                                               name=s['name'], **s['kw'])
+    elif op == 'solution_from':
+        handles[s['name']] = r.create_solution_from(handles[s['src']], s['solute'], s['conc'], s['solvent'], s['q'],
+                                                    name=s['name'])
+
+
+def snap(o):
+    if o is None:
+        return None
+    if is_plate(o):
+        return [[dict(w.contents) for w in row] for row in o.wells]
+    return dict(o.contents)
+
+
+def amount(sn, s):
+    if sn is None:
+        return 0.0
+    if isinstance(sn, dict):
+        return sn.get(s, 0.0)
+    return sum(w.get(s, 0.0) for row in sn for w in row)
+
+
+def total_unit(sn, unit):
+    """Total content in `unit`: scalar for containers, array for plates."""
+    if sn is None:
+        return None
+    if isinstance(sn, dict):
+        return R.measure_unit(sn, unit)
+    return numpy.array([[R.measure_unit(w, unit) for w in row] for row in sn], dtype=float)
+
+
+def prefix_ledger(decls, steps):
+    """L_0 .. L_n: name -> snapshot, from bakes of every prefix (monitors suspended)."""
+    rs = real_steps(steps)
+    init = make_objs(decls)
+    ledgers = []
+    objects = []
+    with M.oracle():
+        for k in range(len(rs) + 1):
+            state = {n: o for n, o in init.items()}
+            if k > 0:
+                r, handles = to_recipe(decls, rs[:k])
+                res = r.bake()
+                state.update(res)
+            ledgers.append({n: snap(o) for n, o in state.items()})
+            objects.append(state)
+    return ledgers, objects
+
+
+# ==================================================================================================
+# program generation (online: each request is drawn from the eager state)
+
+def gen_program(rng, case, focus=None, allow_infeasible=True):
+    pp = PP()
+    subs = make_substances(rng, rng.randint(3, 5))
+    liqs = liquids(subs)
+    decls = build_decls(rng, subs)
+    cur = make_objs(decls)
+    steps = []
+    stages = 0
+    open_stage = None
+    n_target = rng.randint(3, 12)
+    tries = 0
+    infeasible_at = None
+    want_infeasible = allow_infeasible and rng.random() < 0.1
+    created = 0
+
+    def cn():
+        return [n for n, o in cur.items() if isinstance(o, pp.Container)]
+
+    def pn():
+        return [n for n, o in cur.items() if isinstance(o, pp.Plate)]
+
+    def nonempty(n):
+        return any(a > 0 for a in cur[n].contents.values())
+
+    def sel_for(pname, partial=None):
+        p = cur[pname]
+        if partial is False or (partial is None and rng.random() < 0.3):
+            return None, [(i, j) for i in range(p.wells.shape[0]) for j in range(p.wells.shape[1])]
+        sel, idx, shape = rand_selector(rng, p)
+        return sel, idx
+
+    kinds = ['t_cc', 't_cp', 't_cp', 't_cp', 't_pc', 't_pp', 'remove', 'fill', 'newc', 'dilute', 'solution',
+             'solution_c', 'solution_from']
+    if focus == 'remove':
+        kinds += ['remove'] * 5 + ['t_cp'] * 2
+    if focus == 'plates':
+        kinds += ['t_cp', 't_pc', 't_pp', 't_pp', 'remove', 'fill'] * 2
+    if focus == 'instructions':
+        kinds += ['fill', 'dilute', 'solution', 'solution_from', 't_cp']
+    while len(real_steps(steps)) < n_target and tries < 80:
+        tries += 1
+        if open_stage is None and rng.random() < 0.25:
+            open_stage = f'st{stages}'
+            stages += 1
+            steps.append({'op': 'start_stage', 'name': open_stage})
+        kind = rng.choice(kinds)
+        st = None
+        C, P = cn(), pn()
+        if kind == 't_cc' and len(C) > 1:
+            srcs = [n for n in C if nonempty(n)]
+            if srcs:
+                a = rng.choice(srcs)
+                b = rng.choice([n for n in C if n != a])
+                base = rng.choice([x for x in R.BASES if R.measure(cur[a].contents, x) > 0])
+                m = R.measure(cur[a].contents, base)
+                room = H1_room(cur[b])
+                vol = R.measure(cur[a].contents, 'L')
+                lim = min(m, room / vol * m if vol > 0 and math.isfinite(room) else m)
+                st = {'op': 'transfer', 'src': [a, None], 'dst': [b, None], 'q': spell(rng, lim * rng.uniform(0.01, 0.4), base)}
+        elif kind == 't_cp' and C and P:
+            srcs = [n for n in C if nonempty(n)]
+            if srcs:
+                a, b = rng.choice(srcs), rng.choice(P)
+                sel, idx = sel_for(b)
+                base = rng.choice([x for x in R.BASES if R.measure(cur[a].contents, x) > 0])
+                m = R.measure(cur[a].contents, base)
+                vol = R.measure(cur[a].contents, 'L')
+                room = min(H1_room(cur[b].wells[ij]) for ij in idx)
+                lim = min(m / len(idx), room / vol * m if vol > 0 else m)
+                st = {'op': 'transfer', 'src': [a, None], 'dst': [b, sel], 'q': spell(rng, lim * rng.uniform(0.05, 0.5), base)}
+        elif kind == 't_pc' and C and P:
+            a, b = rng.choice(P), rng.choice(C)
+            sel, idx = sel_for(a)
+            wells = [cur[a].wells[ij] for ij in idx]
+            vols = [R.measure(w.contents, 'L') for w in wells]
+            if min(vols) > 0:
+                room = H1_room(cur[b]) / len(idx)
+                st = {'op': 'transfer', 'src': [a, sel], 'dst': [b, None],
+                      'q': spell(rng, min(min(vols), room) * rng.uniform(0.05, 0.5), 'L')}
+        elif kind == 't_pp' and P:
+            st = gen_pp(rng, cur, P)
+        elif kind == 'remove' and (C or P):
+            t = rng.choice(C + P)
+            o = cur[t]
+            present = list(o.get_substances()) if is_plate(o) else list(o.contents)
+            what = rng.choice(present) if present and rng.random() < 0.6 else rng.choice([R.SOLID, R.LIQUID, R.ENZYME])
+            sel = None
+            if is_plate(o):
+                sel, idx = sel_for(t)
+            st = {'op': 'remove', 'dst': [t, sel], 'what': what}
+            if rng.random() < 0.5 and open_stage is None:
+                # its own stage, so that the discarded amounts can be queried (C17 trash link)
+                steps.append({'op': 'start_stage', 'name': f'rm{stages}'})
+                try:
+                    cur = apply_eager(cur, st)
+                except Exception:
+                    steps.pop()
+                    continue
+                steps.append(st)
+                steps.append({'op': 'end_stage', 'name': f'rm{stages}'})
+                stages += 1
+                continue
+        elif kind == 'fill' and (C or P):
+            t = rng.choice(C + P)
+            o = cur[t]
+            solv = rng.choice(liqs)
+            base = rng.choice(['L', 'L', 'g', 'mol'])
+            if is_plate(o):
+                # recipe fill_to on a *part* of a plate is the recorded finding KF05 (it fills the whole plate):
+                # random programs use the whole plate; parts are exercised by the directed witnesses
+                sel, idx = sel_for(t, partial=False) if not (case.get('kf05')) else sel_for(t, partial=True)
+                wells = [o.wells[ij] for ij in idx]
+            else:
+                sel, wells = None, [o]
+            curq = max(R.measure(w.contents, base) for w in wells)
+            room = min(H1_room(w) for w in wells)
+            pb, pl = R.per(solv, base), R.per(solv, 'L')
+            maxadd = room / pl * pb if math.isfinite(room) else max(curq, 1e-4) * 2
+            if maxadd > 0:
+                st = {'op': 'fill_to', 'dst': [t, sel], 'solvent': solv, 'q': spell(rng, curq + maxadd * rng.uniform(0.05, 0.6), base)}
+        elif kind == 'newc':
+            created += 1
+            init = [(rng.choice(liqs), f'{rng.randint(1, 50)} mL')]
+            s2 = rng.choice(subs)
+            if s2 != init[0][0]:
+                init.append((s2, f'{rng.randint(1, 9)} U' if s2.is_enzyme() else f'{rng.randint(1, 900)} mg'))
+            st = {'op': 'create_container', 'name': f'n{created}', 'max': rng.choice([None, '200 mL']), 'init': init}
+        elif kind == 'dilute' and C:
+            cands = [n for n in C if any((not s.is_enzyme()) and a > 0 for s, a in cur[n].contents.items())
+                     and R.measure(cur[n].contents, 'L') > 0]
+            if cands:
+                t = rng.choice(cands)
+                solute = rng.choice([s for s, a in cur[t].contents.items() if not s.is_enzyme() and a > 0])
+                solv = rng.choice([l for l in liqs if l != solute] or liqs)
+                if solv != solute:
+                    num, den = rng.choice([('mol', 'L'), ('g', 'L'), ('g', 'g'), ('mol', 'mol')])
+                    c0 = R.concentration(cur[t].contents, solute, num, den)
+                    if 1e-4 < c0 < 1e6:
+                        st = {'op': 'dilute', 'dst': t, 'solute': solute, 'solvent': solv,
+                              'conc': f'{c0 * rng.uniform(0.3, 0.9):.6g} {num}/{den}',
+                              'new_name': rng.choice([None, None, f'renamed{created}']) if case.get('prop') == 'C08' else None}
+        elif kind in ('solution', 'solution_c'):
+            created += 1
+            solute = rng.choice([s for s in subs if not s.is_liquid()] or subs)
+            kw = {'concentration': f'{rng.randint(1, 20) / 10} ' + ('U/mL' if solute.is_enzyme() else rng.choice(['M', 'g/L', 'mg/mL'])),
+                  'total_quantity': f'{rng.randint(5, 40)} mL'}
+            if rng.random() < 0.3:
+                kw = {'quantity': f'{rng.randint(1, 9)} U' if solute.is_enzyme() else f'{rng.randint(10, 500)} mg',
+                      'total_quantity': f'{rng.randint(5, 40)} mL'}
+            if kind == 'solution':
+                st = {'op': 'solution', 'name': f's{created}', 'solutes': solute, 'solvent': rng.choice([l for l in liqs if l != solute]), 'kw': kw}
+            else:
+                cands = [n for n in C if any(s.is_liquid() and a > 0 for s, a in cur[n].contents.items())
+                         and solute not in cur[n].contents]
+                if cands:
+                    st = {'op': 'solution', 'name': f's{created}', 'solutes': [solute], 'solvent': rng.choice(cands), 'kw': kw}
+        elif kind == 'solution_from' and C:
+            cands = [n for n in C if any(s.is_solid() and a > 0 for s, a in cur[n].contents.items())
+                     and R.measure(cur[n].contents, 'L') > 0]
+            if cands:
+                created += 1
+                t = rng.choice(cands)
+                solute = rng.choice([s for s, a in cur[t].contents.items() if s.is_solid() and a > 0])
+                c0 = R.concentration(cur[t].contents, solute, 'mol', 'L')
+                vol = R.measure(cur[t].contents, 'L')
+                if c0 > 1e-4:
+                    st = {'op': 'solution_from', 'name': f'f{created}', 'src': t, 'solute': solute,
+                          'conc': f'{c0 * rng.uniform(0.2, 0.8):.6g} M', 'solvent': rng.choice([l for l in liqs if l != solute]),
+                          'q': spell(rng, vol * rng.uniform(0.05, 0.4), 'L')}
+        if st is None:
+            continue
+        if want_infeasible and infeasible_at is None and len(real_steps(steps)) >= 1 and rng.random() < 0.3 \
+                and st['op'] == 'transfer':
+            v, b = R.parse_quantity(st['q'])
+            st = dict(st, q=spell(rng, v * 1e4, b))
+        try:
+            with M.oracle():
+                cur = apply_eager(cur, st)
+        except (ValueError,) as e:
+            if want_infeasible and infeasible_at is None and st['op'] == 'transfer':
+                infeasible_at = len(real_steps(steps))
+                steps.append(st)
+                break
+            continue
+        except (MonitorBug, InjectedFault):
+            raise
+        except Exception:
+            continue      # mechanisms of recorded findings (list slices etc.) are not carried into programs
+        steps.append(st)
+        if open_stage and rng.random() < 0.35:
+            steps.append({'op': 'end_stage', 'name': open_stage})
+            open_stage = None
+    # declare only what is used
+    used = set()
+    for s in steps:
+        used.update(touched(s))
+    decls = [d for d in decls if d['name'] in used]
+    return {'subs': subs, 'decls': decls, 'steps': steps, 'infeasible_at': infeasible_at}
+
+
+def H1_room(container):
+    cf = R.cfg()
+    if not math.isfinite(container.max_volume):
+        return float('inf')
+    return max(container.max_volume * cf.vol_prefix - R.measure(container.contents, 'L'), 0.0)
+
+
+def gen_pp(rng, cur, P):
+    """slice -> slice between two plates or within one plate (disjoint regions only: overlap is KF02)."""
+    a = rng.choice(P)
+    same = rng.random() < 0.3 or len(P) < 2
+    b = a if same else rng.choice([n for n in P if n != a])
+    pa, pb = cur[a], cur[b]
+    form = rng.choice(['1->N', 'N->1', 'N->N'])
+    Ra, Ca = pa.wells.shape
+    Rb, Cb = pb.wells.shape
+    if form == 'N->N':
+        h, w = rng.randint(1, min(Ra, Rb)), rng.randint(1, min(Ca, Cb))
+        r0, c0 = rng.randint(0, Ra - h), rng.randint(0, Ca - w)
+        places = [(x, y) for x in range(Rb - h + 1) for y in range(Cb - w + 1)]
+        if same:
+            places = [(x, y) for x, y in places if x + h <= r0 or r0 + h <= x or y + w <= c0 or c0 + w <= y]
+        if not places:
+            return None
+        x, y = rng.choice(places)
+        ssel = rect_selector(rng, pa, r0, r0 + h - 1, c0, c0 + w - 1)
+        dsel = rect_selector(rng, pb, x, x + h - 1, y, y + w - 1)
+    elif form == '1->N':
+        ij = (rng.randrange(Ra), rng.randrange(Ca))
+        ssel = (ij[0] + 1, ij[1] + 1)
+        for _ in range(10):
+            dsel, didx, _ = rand_selector(rng, pb, ['row', 'two', 'rowslice', 'colslice', 'cell_tuple', 'whole'])
+            if not same or ij not in didx:
+                break
+        else:
+            return None
+    else:
+        ij = (rng.randrange(Rb), rng.randrange(Cb))
+        dsel = (ij[0] + 1, ij[1] + 1)
+        for _ in range(10):
+            ssel, sidx, _ = rand_selector(rng, pa, ['row', 'two', 'rowslice', 'colslice', 'cell_tuple', 'whole'])
+            if not same or ij not in sidx:
+                break
+        else:
+            return None
+    sidx, _ = R.ref_address(list(pa.row_names), list(pa.column_names), ssel)
+    didx, _ = R.ref_address(list(pb.row_names), list(pb.column_names), dsel)
+    vols = [R.measure(pa.wells[ij].contents, 'L') for ij in sidx]
+    if min(vols) <= 0:
+        return None
+    ndraw = len(didx) if len(sidx) == 1 else 1
+    nfill = len(sidx) if len(didx) == 1 else 1
+    room = min(H1_room(pb.wells[ij]) for ij in didx) / nfill
+    lim = min(min(vols) / ndraw, room)
+    if lim <= 0:
+        return None
+    return {'op': 'transfer', 'src': [a, ssel], 'dst': [b, dsel], 'q': spell(rng, lim * rng.uniform(0.05, 0.5), 'L')}
+
+
+def describe_program(prog):
+    def d(v):
+        if hasattr(v, 'name') and hasattr(v, '_type'):
+            return v.name
+        if isinstance(v, (list, tuple)):
+            return [d(x) for x in v]
+        if isinstance(v, dict):
+            return {k: d(x) for k, x in v.items()}
+        if isinstance(v, slice):
+            return sel_json(v)
+        return v
+    steps = []
+    for s in prog['steps']:
+        s2 = {}
+        for k, v in s.items():
+            if k in ('src', 'dst') and isinstance(v, list):
+                s2[k] = [v[0], sel_json(v[1]) if v[1] is not None else None]
+            else:
+                s2[k] = d(v)
+        steps.append(s2)
+    return {'decls': [{k: d(v) for k, v in dd.items()} for dd in prog['decls']], 'steps': steps}
+
+
+# ==================================================================================================
+# the case: run a program in every mode and apply the checkers
+
+def same_state(a, b, tolmul=1.0):
+    """None if two objects (containers or plates) agree on contents/volume/capacity within tolerance."""
+    pp = PP()
+    if isinstance(a, pp.Container) and isinstance(b, pp.Container):
+        return H1.same_container_state(a, b, tolmul)
+    if isinstance(a, pp.Plate) and isinstance(b, pp.Plate):
+        if a.wells.shape != b.wells.shape:
+            return 'shape'
+        for (ij, wa) in H1._enum(a.wells):
+            d = H1.same_container_state(wa, b.wells[ij], tolmul)
+            if d:
+                return f'well {ij}: {d}'
+        return None
+    return f'types {type(a).__name__} vs {type(b).__name__}'
+
+
 def run_recipe_case(rng, case, idx, focus=None):
-    return None
+    pp = PP()
+    case = dict(case)
+    if focus in ('kf05',):
+        case['kf05'] = True
+    with M.oracle():
+        prog = gen_program(rng, case, focus)
+    rs = real_steps(prog['steps'])
+    if not rs:
+        return
+    pdesc = describe_program(prog)
+    n = len(rs)
+    # ---------------- eager fold (monitors on: the direct operations are watched too)
+    eager_states = []
+    eager_exc = None
+    cur = make_objs(prog['decls'])
+    eager_states.append(cur)
+    with M.active(case):
+        for k, s in enumerate(rs):
+            try:
+                cur = apply_eager(cur, s)
+                eager_states.append(cur)
+            except (MonitorBug, InjectedFault):
+                raise
+            except Exception as e:   # noqa
+                eager_exc = (k, e)
+                break
+    # ---------------- through the Recipe API (monitors on: nested operations inside bake are watched)
+    bake_exc = None
+    res = None
+    r = None
+    handles = {}
+    placeholders = {}
+    with M.active(case):
+        try:
+            r, handles = to_recipe(prog['decls'], prog['steps'])
+            placeholders = {nme: F.fingerprint(o) for nme, o in handles.items()}
+            pre_bake = {nme: F.fingerprint(o) for nme, o in handles.items()}
+            res = r.bake()
+        except (MonitorBug, InjectedFault):
+            raise
+        except Exception as e:   # noqa
+            bake_exc = e
+    M.count('C08.programs')
+    kinds = sorted({s['op'] for s in rs})
+    for kd in kinds:
+        M.bucket(f'C08/step/{kd}')
+    reuse = len(rs) >= 3 and any(sum(1 for s in rs if nme in touched(s)) >= 2 for nme in {x for s in rs for x in touched(s)})
+    # ---------------- C08: bake = eager
+    check_c08(prog, pdesc, rs, eager_states, eager_exc, res, bake_exc, handles, placeholders, case)
+    if reuse and bake_exc is None and eager_exc is None:
+        M.note_nontrivial('C08', repr(pdesc)[:3000])
+        M.sample('C08', {'program': pdesc, 'result_names': sorted(res)}, cap=3)
+    if res is None or eager_exc is not None:
+        return
+    conforming = all(same_state(eager_states[-1][nme], res[nme]) is None for nme in res if nme in eager_states[-1])
+    # ---------------- ledger from prefix bakes
+    try:
+        ledger, objects = prefix_ledger(prog['decls'], prog['steps'])
+    except (MonitorBug, InjectedFault):
+        raise
+    except Exception as e:   # noqa
+        M.count('ledger.prefix_bake_failed')
+        return
+    M.count('ledger.built')
+    # prefix independence (C08): the state after step k does not depend on steps > k
+    for nme in res:
+        d = same_state(objects[n].get(nme), res[nme]) if nme in objects[n] else 'missing'
+        if d:
+            M.violate(['C08'], 'BAKE', 'C08:prefix_bake_of_all_steps_differs_from_bake', {'name': nme, 'diff': d, 'program': pdesc})
+            return
+    if conforming:
+        for k in range(1, n):
+            for nme, o in objects[k].items():
+                if nme in eager_states[k]:
+                    M.count('C08.prefix_state')
+                    d = same_state(eager_states[k][nme], o)
+                    if d:
+                        M.violate(['C08'], 'BAKE', f'C08:state_after_step_k_depends_on_later_steps_or_differs:{rs[k - 1]["op"]}',
+                                  {'k': k, 'name': nme, 'diff': d, 'program': pdesc})
+                        break
+    with M.active(case):
+        renamed = any(s_.get('new_name') for s_ in rs)
+        if not renamed:
+            check_c09(prog, pdesc, rs, r, res, ledger, case, handles)
+            check_c15(prog, pdesc, rs, r, res, ledger, case, handles)
+            check_c17_trash(prog, pdesc, rs, r, res, ledger, case, handles)
+        check_c19_steps(prog, pdesc, rs, r, res, ledger, objects, case)
+
+
+# --------------------------------------------------------------------------------------------------
+
+def check_c08(prog, pdesc, rs, eager_states, eager_exc, res, bake_exc, handles, placeholders, case):
+    pp = PP()
+    M.count('C08.compare')
+    has_slice_fill = any(s['op'] == 'fill_to' and s['dst'][1] is not None for s in rs)
+    if eager_exc is not None or bake_exc is not None:
+        ek = type(eager_exc[1]).__name__ if eager_exc else None
+        bk = type(bake_exc).__name__ if bake_exc is not None else None
+        M.bucket(f'C08/outcome/eager={ek}/bake={bk}')
+        if (eager_exc is None) != (bake_exc is None) or (eager_exc is not None and not (
+                isinstance(eager_exc[1], ValueError) and isinstance(bake_exc, ValueError)) and ek != bk):
+            mech = f'C08:bake_and_eager_disagree_on_feasibility:eager={ek}:bake={bk}'
+            if has_slice_fill and eager_exc is None and isinstance(bake_exc, ValueError):
+                # KF05 in its "refused" form: the whole-plate fill hits a non-addressed well above the target
+                try:
+                    with M.oracle():
+                        cur = make_objs(prog['decls'])
+                        for s in rs:
+                            cur = apply_eager(cur, s, kf05=True)
+                except ValueError:
+                    mech = 'C08:recipe_fill_to_slice_fills_whole_plate:refused_at_unaddressed_well'
+                except Exception:
+                    pass
+            M.violate(['C08'] + (['C07'] if 'fills_whole_plate' in mech else []), 'BAKE', mech,
+                      {'eager': repr(eager_exc)[:300], 'bake': repr(bake_exc)[:300], 'program': pdesc})
+        elif eager_exc is not None:
+            M.note_nontrivial('C08', ('infeasible', repr(pdesc)[:2000]))
+        return
+    final = eager_states[-1]
+    M.bucket('C08/outcome/both_ok')
+    # key set: exactly the declared and recipe-created names
+    want = set(final.keys())
+    if set(res.keys()) != want:
+        M.violate(['C08'], 'BAKE', 'C08:result_names_ne_declared_and_created',
+                  {'got': sorted(res.keys()), 'want': sorted(want), 'program': pdesc})
+    # steps have no effect before bake: handles (declared objects and placeholders) unchanged
+    for nme, fp in placeholders.items():
+        if F.fingerprint(handles[nme]) != fp:
+            M.violate(['C08', 'C04'], 'BAKE', 'C08:declared_object_or_placeholder_changed_by_bake', {'name': nme, 'program': pdesc})
+    mism = None
+    for nme in want & set(res.keys()):
+        d = same_state(final[nme], res[nme])
+        if d:
+            mism = (nme, d)
+            break
+    if mism:
+        mech = 'C08:bake_result_ne_eager_fold'
+        kinds = sorted({s['op'] for s in rs})
+        if has_slice_fill:
+            try:
+                with M.oracle():
+                    cur = make_objs(prog['decls'])
+                    for s in rs:
+                        cur = apply_eager(cur, s, kf05=True)
+                if all(same_state(cur[nme], res[nme]) is None for nme in want & set(res.keys())):
+                    mech = 'C08:recipe_fill_to_slice_fills_whole_plate:whole_plate_filled_to_target'
+            except Exception:
+                pass
+        if mech == 'C08:bake_result_ne_eager_fold':
+            solv_c = any(s['op'] == 'solution' and isinstance(s['solvent'], str) for s in rs)
+            mech += ':container_solvent_step' if solv_c else ':' + '+'.join(kinds)
+        M.violate(['C08'] + (['C07'] if 'fills_whole_plate' in mech else []), 'BAKE', mech,
+                  {'name': mism[0], 'diff': mism[1], 'program': pdesc})
+
+
+# --------------------------------------------------------------------------------------------------
+
+def ledger_noise(ledger, a, b, names, s):
+    """Noise bound (storage units) on a sum of per-step deltas of substance s over names."""
+    q = R.cfg().q
+    n_wells = 0
+    for nme in names:
+        sn = ledger[-1].get(nme)
+        n_wells += 1 if (sn is None or isinstance(sn, dict)) else sum(len(row) for row in sn)
+    big = max([abs(amount(ledger[k].get(nme), s)) for k in range(a, b + 1) for nme in names] + [0.0])
+    return (b - a + 1) * (n_wells + 1) * K * q + R.noise(big) * (b - a + 1) * 4
+
+
+def units_for(s, rng=None):
+    if R.is_enzyme(s):
+        return ['U', 'mg', 'g', 'uL']
+    return ['umol', 'mmol', 'mol', 'mg', 'g', 'uL', 'mL']
+
+
+def check_c09(prog, pdesc, rs, r, res, ledger, case, handles):
+    pp = PP()
+    cf = R.cfg()
+    ranges = stage_ranges(prog['steps'])
+    names = list(res.keys())
+    plates = [nme for nme in names if is_plate(res[nme])]
+    rnd = __import__('random').Random(repr(pdesc)[:200])
+    dest_sets = [None] + [[nme] for nme in names] + [names]
+    if len(names) > 2:
+        dest_sets += [rnd.sample(names, rnd.randint(2, len(names) - 1)) for _ in range(2)]
+    for tf, (a, b) in ranges.items():
+        for s in prog['subs']:
+            for dests in dest_sets:
+                dn = plates if dests is None else dests
+                exp = 0.0
+                for k in range(a, b):
+                    for nme in dn:
+                        exp += amount(ledger[k + 1].get(nme), s) - amount(ledger[k].get(nme), s)
+                    if rs[k]['op'] == 'remove':
+                        t = rs[k]['dst'][0]
+                        exp += amount(ledger[k].get(t), s) - amount(ledger[k + 1].get(t), s)
+                unit = rnd.choice(units_for(s))
+                noise = ledger_noise(ledger, a, b, list(dn) + [rs[k]['dst'][0] for k in range(a, b) if rs[k]['op'] == 'remove'], s)
+                M.count('C09.query')
+                try:
+                    got = r.get_substance_used(s, tf, unit, 'plates' if dests is None else [handles[nme] for nme in dests])
+                    gexc = None
+                except (MonitorBug, InjectedFault):
+                    raise
+                except Exception as e:   # noqa
+                    got, gexc = None, e
+                kinds = sorted({rs[k]['op'] for k in range(a, b)})
+                dkind = 'default_plates' if dests is None else ('single' if len(dests) == 1 else 'all' if len(dests) == len(names) else 'subset')
+                _, ub = R.split_unit(unit)
+                M.bucket(f'C09/{dkind}/{ub}/' + ('raise' if exp < -noise else 'zero' if abs(exp) <= noise else 'pos'))
+                for kd in kinds:
+                    M.bucket(f'C09/steps/{kd}')
+                detail = {'substance': s.name, 'timeframe': tf, 'steps': [a, b], 'unit': unit, 'destinations': dests,
+                          'expected_storage_units': exp, 'noise': noise, 'program': pdesc}
+                if exp < -noise:
+                    if not isinstance(gexc, ValueError):
+                        M.violate(['C09'], 'LEDGER', 'C09:net_decrease_not_refused_with_ValueError',
+                                  dict(detail, got=got, exc=repr(gexc)[:200]))
+                    else:
+                        M.note_nontrivial('C09', ('neg', s.name, tf, repr(dests), repr(pdesc)[:1500]))
+                    continue
+                if abs(exp) <= noise:
+                    if gexc is not None and not isinstance(gexc, ValueError):
+                        M.violate(['C09'], 'LEDGER', f'C09:query_raised:{type(gexc).__name__}', dict(detail, exc=repr(gexc)[:200]))
+                    elif gexc is None:
+                        tolz = abs(R.convert(s, noise, 'U' if R.is_enzyme(s) else cf.mol_unit, unit)) + 0.5 * 10.0 ** (-cf.precision(unit)) * 1.000001
+                        if abs(got) > tolz:
+                            M.violate(['C09'], 'LEDGER', 'C09:amount_ne_ledger:expected_zero', dict(detail, got=got))
+                    continue
+                if gexc is not None:
+                    M.violate(['C09'], 'LEDGER', f'C09:non_decrease_raised:{type(gexc).__name__}',
+                              dict(detail, exc=repr(gexc)[:200]))
+                    continue
+                from_unit = 'U' if R.is_enzyme(s) else cf.mol_unit
+                exp_u = R.convert(s, exp, from_unit, unit)
+                tol = abs(R.convert(s, noise, from_unit, unit)) + 0.5 * 10.0 ** (-cf.precision(unit)) * 1.000001 + 1e-9 * abs(exp_u)
+                if not M.ratio('C09', got, exp_u, tol):
+                    rm_part = any(rs[k]['op'] == 'remove' and rs[k]['dst'][1] is not None for k in range(a, b))
+                    M.violate(['C09'], 'LEDGER', 'C09:amount_ne_ledger:' + ('+'.join(kinds)) + (':partial_remove' if rm_part else ''),
+                              dict(detail, got=got, expected=exp_u, tol=tol))
+                else:
+                    M.note_nontrivial('C09', ('pos', s.name, tf, repr(dests), unit, repr(pdesc)[:1500]))
+                    M.sample('C09', {'substance': s.name, 'timeframe': tf, 'unit': unit, 'destinations': dests,
+                                     'reported': got, 'ledger': exp_u, 'program_steps': pdesc['steps']}, cap=3)
+    # additivity over a partition into consecutive stages
+    stages = sorted([(a, b, nme) for nme, (a, b) in ranges.items() if nme != 'all'])
+    cover = 0
+    parts = []
+    for a, b, nme in stages:
+        if a == cover:
+            parts.append(nme)
+            cover = b
+    if parts and cover == len(rs) and len(parts) >= 2:
+        for s in prog['subs']:
+            unit = 'U' if R.is_enzyme(s) else 'umol'
+            try:
+                whole = r.get_substance_used(s, 'all', unit, [handles[nme] for nme in names])
+                summed = sum(r.get_substance_used(s, nme, unit, [handles[x] for x in names]) for nme in parts)
+            except ValueError:
+                continue
+            M.count('C09.additivity')
+            if abs(whole - summed) > (len(parts) + 1) * 0.5 * 10.0 ** (-cf.precision(unit)) + 1e-9 * abs(whole):
+                M.violate(['C09'], 'LEDGER', 'C09:stage_amounts_do_not_add_up',
+                          {'substance': s.name, 'whole': whole, 'sum_of_stages': summed, 'stages': parts, 'program': pdesc})
+            M.bucket('C09/additivity')
+
+
+# --------------------------------------------------------------------------------------------------
+
+def check_c15(prog, pdesc, rs, r, res, ledger, case, handles):
+    pp = PP()
+    cf = R.cfg()
+    ranges = stage_ranges(prog['steps'])
+    rnd = __import__('random').Random(repr(pdesc)[:200] + 'c15')
+    for tf, (a, b) in ranges.items():
+        for nme in res:
+            ks = [k for k in range(a, b) if nme in touched(rs[k])]
+            if not ks:
+                continue
+            plate = is_plate(res[nme])
+            solvent_container_only = all(
+                rs[k]['op'] == 'solution' and isinstance(rs[k]['solvent'], str) and rs[k]['solvent'] == nme for k in ks)
+            for unit in rnd.sample(['uL', 'mL', 'mg', 'g', 'umol', 'mol', 'U'], 3):
+                prec = cf.precision(unit)
+                half = 0.5 * 10.0 ** (-prec) * 1.000001
+                p_, base = R.split_unit(unit)
+                nsub = 6
+                noise_u = (len(ks) + 1) * K * nsub * max(abs(R.convert(s, cf.q, 'U' if R.is_enzyme(s) else cf.mol_unit, unit))
+                                                         for s in prog['subs'])
+                obj = handles[nme]
+                # ---- amount remaining
+                reported = {}
+                for mode, k in (('before', ks[0]), ('after', ks[-1] + 1)):
+                    sn = ledger[k].get(nme)
+                    exp = total_unit(sn, unit)
+                    if exp is None:
+                        exp = 0.0 if not plate else None
+                    M.count('C15.remaining')
+                    try:
+                        got = r.get_amount_remaining(obj, tf, unit, mode)
+                        gexc = None
+                    except (MonitorBug, InjectedFault):
+                        raise
+                    except Exception as e:   # noqa
+                        got, gexc = None, e
+                    M.bucket(f'C15/remaining/{"plate" if plate else "container"}/{base}/{mode}')
+                    detail = {'object': nme, 'timeframe': tf, 'unit': unit, 'mode': mode, 'program': pdesc}
+                    if gexc is not None:
+                        M.violate(['C15'], 'LEDGER', f'C15:amount_remaining_raised:{type(gexc).__name__}:{"plate" if plate else "container"}',
+                                  dict(detail, exc=repr(gexc)[:200]))
+                        continue
+                    if exp is None:
+                        continue
+                    ok = got is not None and numpy.shape(got) == numpy.shape(exp) and bool(numpy.all(
+                        numpy.abs(numpy.asarray(got, dtype=float) - exp) <= noise_u + 1e-9 * numpy.abs(exp) + 1e-12))
+                    if not ok:
+                        mech = 'C15:amount_remaining_ne_ledger:' + ('plate' if plate else 'container')
+                        if solvent_container_only and got is None:
+                            mech = 'C15:solvent_container_of_create_solution_not_recorded:remaining_absent'
+                        M.violate(['C15'], 'LEDGER', mech,
+                                  dict(detail, got=numpy.asarray(got).tolist() if got is not None else None,
+                                       expected=numpy.asarray(exp).tolist()))
+                    else:
+                        reported[mode] = numpy.asarray(got, dtype=float)
+                        M.note_nontrivial('C15', ('rem', nme, tf, unit, mode, repr(pdesc)[:1200]))
+                # ---- flows
+                ein = 0.0
+                eout = 0.0
+                for k in ks:
+                    b4 = total_unit(ledger[k].get(nme), unit)
+                    af = total_unit(ledger[k + 1].get(nme), unit)
+                    if b4 is None:
+                        b4 = 0.0 * af
+                    d = af - b4
+                    ein = ein + numpy.maximum(d, 0)
+                    eout = eout + numpy.maximum(-d, 0)
+                M.count('C15.flows')
+                try:
+                    got = r.get_container_flows(obj, tf, unit)
+                    gexc = None
+                except (MonitorBug, InjectedFault):
+                    raise
+                except Exception as e:   # noqa
+                    got, gexc = None, e
+                kinds = sorted({rs[k]['op'] for k in ks})
+                M.bucket(f'C15/flows/{"plate" if plate else "container"}/{base}')
+                detail = {'object': nme, 'timeframe': tf, 'unit': unit, 'step_kinds': kinds, 'program': pdesc}
+                if gexc is not None:
+                    M.violate(['C15'], 'LEDGER', f'C15:container_flows_raised:{type(gexc).__name__}:{"plate" if plate else "container"}',
+                              dict(detail, exc=repr(gexc)[:200]))
+                    continue
+                tol = half * (len(ks) + 1) + noise_u
+                gi, go = numpy.asarray(got['in'], dtype=float), numpy.asarray(got['out'], dtype=float)
+                bad = None
+                if numpy.shape(gi) != numpy.shape(ein) and plate:
+                    bad = 'shape'
+                elif bool(numpy.any(gi < -tol)) or bool(numpy.any(go < -tol)):
+                    bad = 'negative_flow'
+                elif not bool(numpy.all(numpy.abs(gi - ein) <= tol + 1e-9 * numpy.abs(ein))):
+                    bad = 'inflow'
+                elif not bool(numpy.all(numpy.abs(go - eout) <= tol + 1e-9 * numpy.abs(eout))):
+                    bad = 'outflow'
+                if bad:
+                    mech = f'C15:container_flows_ne_ledger:{bad}:' + ('plate' if plate else 'container') + ':' + '+'.join(kinds)
+                    solvent_role = [k for k in ks if rs[k]['op'] == 'solution' and rs[k].get('solvent') == nme]
+                    if solvent_role and bad == 'outflow':
+                        # recorded finding only in its specific form: the outflow through create_solution steps is
+                        # missing entirely, everything else is right
+                        miss = 0.0
+                        for k in solvent_role:
+                            miss = miss + numpy.maximum(total_unit(ledger[k].get(nme), unit) - total_unit(ledger[k + 1].get(nme), unit), 0)
+                        if bool(numpy.all(numpy.abs(go + miss - eout) <= tol + 1e-9 * numpy.abs(eout))):
+                            mech = 'C15:solvent_container_of_create_solution_not_recorded:outflow_missing'
+                    M.violate(['C15'], 'LEDGER', mech, dict(detail, got={'in': gi.tolist(), 'out': go.tolist()},
+                                                            expected={'in': numpy.asarray(ein).tolist(), 'out': numpy.asarray(eout).tolist()}))
+                    continue
+                M.note_nontrivial('C15', ('flow', nme, tf, unit, repr(pdesc)[:1200]))
+                M.sample('C15', {'object': nme, 'timeframe': tf, 'unit': unit, 'reported': {'in': gi.tolist(), 'out': go.tolist()},
+                                 'ledger': {'in': numpy.asarray(ein).tolist(), 'out': numpy.asarray(eout).tolist()},
+                                 'program_steps': pdesc['steps']}, cap=3)
+                # ---- balance on the reported numbers
+                if 'before' in reported and 'after' in reported and ledger[ks[0]].get(nme) is not None:
+                    M.count('C15.balance')
+                    lhs = gi - go
+                    rhs = reported['after'] - reported['before']
+                    if not bool(numpy.all(numpy.abs(lhs - rhs) <= tol * 2 + 1e-9 * numpy.abs(rhs))):
+                        M.violate(['C15'], 'LEDGER', 'C15:inflow_minus_outflow_ne_change_in_remaining',
+                                  dict(detail, inflow_minus_outflow=lhs.tolist(), change=rhs.tolist()))
+
+
+# --------------------------------------------------------------------------------------------------
+
+def check_c17_trash(prog, pdesc, rs, r, res, ledger, case, handles):
+    cf = R.cfg()
+    ranges = stage_ranges(prog['steps'])
+    names = list(res.keys())
+    for tf, (a, b) in ranges.items():
+        if b - a != 1 or rs[a]['op'] != 'remove':
+            continue
+        st = rs[a]
+        t, sel = st['dst']
+        plate = is_plate(res[t])
+        M.bucket('C17/recipe/' + ('container' if not plate else 'plate_part' if sel is not None else 'plate_whole'))
+        others = [nme for nme in names if nme != t]
+        for s in prog['subs']:
+            removed = amount(ledger[a].get(t), s) - amount(ledger[a + 1].get(t), s)
+            unit = 'U' if R.is_enzyme(s) else 'umol'
+            tol = 0.5 * 10.0 ** (-cf.precision(unit)) * 1.000001 + abs(removed) * 1e-9 + 1e-6
+            if others:
+                M.count('TRASHLINK')
+                try:
+                    got = r.get_substance_used(s, tf, unit, [handles[others[0]]])
+                except ValueError as e:
+                    got = e
+                if isinstance(got, Exception) or abs(got - removed) > tol:
+                    M.violate(['C17', 'C09'], 'LEDGER', 'C17:discarded_amount_ne_substance_used:' +
+                              ('container' if not plate else 'plate_part' if sel is not None else 'plate_whole'),
+                              {'substance': s.name, 'removed_storage_units': removed, 'reported': repr(got)[:100],
+                               'stage': tf, 'program': pdesc})
+                elif removed > 0:
+                    M.note_nontrivial('C17', ('trash', s.name, tf, repr(pdesc)[:1500]))
+        # flows 'out' of the target
+        for unit in ('uL', 'mg'):
+            M.count('TRASHLINK')
+            b4 = total_unit(ledger[a].get(t), unit)
+            af = total_unit(ledger[a + 1].get(t), unit)
+            eout = numpy.maximum(b4 - af, 0)
+            try:
+                got = numpy.asarray(r.get_container_flows(handles[t], tf, unit)['out'], dtype=float)
+            except Exception as e:   # noqa
+                M.violate(['C17', 'C15'], 'LEDGER', f'C17:flows_of_remove_step_raised:{type(e).__name__}', {'stage': tf, 'program': pdesc})
+                continue
+            tol = 0.5 * 10.0 ** (-cf.precision(unit)) * 1.000001 + 1e-6
+            if numpy.shape(got) != numpy.shape(eout) or not bool(numpy.all(numpy.abs(got - eout) <= tol + 1e-9 * numpy.abs(eout))):
+                M.violate(['C17', 'C15'], 'LEDGER', 'C17:discarded_amount_ne_flows_out:' +
+                          ('container' if not plate else 'plate_part' if sel is not None else 'plate_whole'),
+                          {'unit': unit, 'reported_out': got.tolist(), 'removed': numpy.asarray(eout).tolist(), 'stage': tf,
+                           'program': pdesc})
+
+
+# --------------------------------------------------------------------------------------------------
+
+def check_c19_steps(prog, pdesc, rs, r, res, ledger, objects, case):
+    from . import instr as I
+    cf = R.cfg()
+    if len(r.steps) != len(rs):
+        return
+    for k, (st, step) in enumerate(zip(rs, r.steps)):
+        text = step.instructions or ''
+        op = st['op']
+        M.count('INSTR.recipe_step')
+        M.bucket(f'C19/recipe/{op}')
+        bad = None
+        if op == 'transfer':
+            a, b = st['src'][0], st['dst'][0]
+            v, base = R.parse_quantity(st['q'])
+            toks = I.tokens(text)
+            if a not in text or b not in text:
+                bad = 'names'
+            elif not any(I.token_matches(t, {base: v}) for t in toks):
+                bad = 'amount'
+        elif op in ('dilute', 'fill_to'):
+            t = st['dst'] if op == 'dilute' else st['dst'][0]
+            solv = st['solvent']
+            b4, af = ledger[k].get(t), ledger[k + 1].get(t)
+            if solv.name not in text or t not in text:
+                bad = 'names'
+            elif isinstance(af, dict):
+                added = af.get(solv, 0.0) - (b4 or {}).get(solv, 0.0)
+                actual = I.by_base({solv: added})
+                toks = I.tokens(text)
+                # the request itself is restated ("up to 5 mL", "to 0.1 M"); one *other* token must be the amount added
+                if added != 0 and not any(I.token_matches(t_, actual) for t_ in toks):
+                    bad = 'amount_added'
+            else:
+                # plate: every distinct per-well amount must be stated
+                deltas = []
+                for i, row in enumerate(af):
+                    for j, wc in enumerate(row):
+                        d = wc.get(solv, 0.0) - b4[i][j].get(solv, 0.0)
+                        if d > 0:
+                            deltas.append(d)
+                toks = I.tokens(text)
+                for d in deltas:
+                    actual = I.by_base({solv: d})
+                    if actual['L'] * 1e6 >= 0.5 and not any(I.token_matches(t_, actual) for t_ in toks):
+                        bad = 'per_well_amount'
+                        break
+        elif op == 'solution':
+            nme = st['name']
+            solutes = st['solutes'] if isinstance(st['solutes'], list) else [st['solutes']]
+            if any(s.name not in text for s in solutes):
+                bad = 'names'
+            else:
+                tq = st['kw'].get('total_quantity')
+                if tq:
+                    v, base = R.parse_quantity(tq)
+                    actual = {base: R.measure(ledger[k + 1][nme], base)}
+                    if not any(I.token_matches(t_, actual) for t_ in I.tokens(text)):
+                        bad = 'total'
+        elif op == 'solution_from':
+            nme = st['name']
+            v, base = R.parse_quantity(st['q'])
+            actual = {base: R.measure(ledger[k + 1][nme], base)}
+            if st['src'] not in text or st['solute'].name not in text:
+                bad = 'names'
+            elif not any(I.token_matches(t_, actual, extra_abs=1e-6 * abs(v)) for t_ in I.tokens(text)):
+                bad = 'total'
+        elif op == 'remove':
+            t = st['dst'][0]
+            what = st['what']
+            if t not in text or (hasattr(what, 'name') and what.name not in text):
+                bad = 'names'
+        elif op == 'create_container':
+            if st['name'] not in text:
+                bad = 'names'
+        if bad:
+            M.violate(['C19'], 'INSTR', f'C19:recipe_step_instruction_wrong:{op}:{bad}',
+                      {'step': k, 'instruction': text, 'program_step': pdesc['steps'][[i for i, s in enumerate(prog['steps']) if s is st][0]]})
+        else:
+            M.note_nontrivial('C19', ('rs', text))
+
+
+# ==================================================================================================
+# directed witness of KF05 (recipe fill_to on part of a plate)
+
+def kf05_witness(rng, case):
+    pp = PP()
+    S = pp.Substance
+    water = S.liquid('H2O', 18.0153, 1)
+    dmso = S.liquid('DMSO', 78.13, 1.1004)
+    for variant in ('below', 'above'):
+        decls = [{'type': 'container', 'name': 'c0', 'max': None, 'init': [(water, '50 mL')]},
+                 {'type': 'plate', 'name': 'p0', 'max': '200 uL', 'rows': 2, 'cols': 3}]
+        steps = [{'op': 'transfer', 'src': ['c0', None], 'dst': ['p0', (2, slice(None))], 'q': '20 uL' if variant == 'below' else '150 uL'},
+                 {'op': 'transfer', 'src': ['c0', None], 'dst': ['p0', None], 'q': '10 uL'},
+                 {'op': 'fill_to', 'dst': ['p0', (1, slice(None))], 'solvent': dmso, 'q': '100 uL'}]
+        prog = {'subs': [water, dmso], 'decls': decls, 'steps': steps, 'infeasible_at': None}
+        pdesc = describe_program(prog)
+        rs = steps
+        eager_states = [make_objs(decls)]
+        eager_exc = None
+        with M.active(case):
+            cur = eager_states[0]
+            try:
+                for s in rs:
+                    cur = apply_eager(cur, s)
+                    eager_states.append(cur)
+            except Exception as e:   # noqa
+                eager_exc = (0, e)
+            res = bake_exc = None
+            handles, placeholders = {}, {}
+            try:
+                r, handles = to_recipe(decls, steps)
+                placeholders = {nme: F.fingerprint(o) for nme, o in handles.items()}
+                res = r.bake()
+            except Exception as e:   # noqa
+                bake_exc = e
+        check_c08(prog, pdesc, rs, eager_states, eager_exc, res, bake_exc, handles, placeholders, case)
